@@ -2,8 +2,8 @@
    Only statements; lemmas are proved in theories/Kernels/C05Lemmas.v over definitions regenerated from
    core/numba_kernels.py, api/fmm/helpers.py and the operator factories on every run. *)
 From Coq Require Import Reals String List.
-From BVgen Require Import NumbaKernels Dispatch.
-From BV Require Import Kernels.KernelTactics Kernels.DispatchModel Kernels.C05Lemmas Kernels.SmallK Kernels.SmallKComplex Kernels.Invariance.
+From BVgen Require Import NumbaKernels Dispatch Hypersingular.
+From BV Require Import Kernels.KernelTactics Kernels.DispatchModel Kernels.C05Lemmas Kernels.SmallK Kernels.SmallKComplex Kernels.Invariance Kernels.HypersingularLemmas.
 Import ListNotations.
 Open Scope R_scope.
 Open Scope string_scope.
@@ -157,3 +157,34 @@ Theorem C05_small_k_complex_double_layers :
   (fst adl - ladl) * (fst adl - ladl) + snd adl * snd adl <= bound (dotd x0 x1 x2 y0 y1 y2 nx0 nx1 nx2).
 Proof. exact helmholtz_dl_adl_small_complex_k. Qed.
 Print Assumptions C05_small_k_complex_double_layers.
+
+(* Hypersingular assemblers (gen/Hypersingular.v: the complex factor M of the normal-product term, integrand
+   G (curl_t.curl_s + M phi_t phi_s n_t.n_s), translated from the six *_hypersingular_regular/_singular functions; fails closed):
+   M_laplace = 0, M_helmholtz = -k^2 for complex k, M_modified = +w^2; k = 0 gives Laplace, k = i w gives modified Helmholtz
+   for w, -conj k conjugates -- for the regular and for the singular assembler (which therefore use the same factor). *)
+Theorem C05_hypersingular_family :
+  hyp_family_ok numba_assembly_functions_regular /\ hyp_family_ok numba_assembly_functions_singular.
+Proof. exact (conj hyp_family_regular hyp_family_singular). Qed.
+Print Assumptions C05_hypersingular_family.
+
+(* the three hypersingular factories ask for the single-layer kernel and the hypersingular assembler of their own family *)
+Theorem C05_hypersingular_factories :
+  Forall (fun f => f_kernel_type f = f_module f ++ "_single_layer" /\ f_assembly_type f = f_module f ++ "_hypersingular")
+         (filter is_hypersingular factories) /\ length (filter is_hypersingular factories) = 3%nat.
+Proof. exact hypersingular_factories_kernels. Qed.
+Print Assumptions C05_hypersingular_factories.
+
+(* whole integrand: Helmholtz with k = i w equals modified Helmholtz with w, regular and singular, all x <> y, all curl
+   products c and mass products m *)
+Theorem C05_hypersingular_imaginary_k : forall x0 x1 x2 y0 y1 y2 nx0 nx1 nx2 ny0 ny1 ny2 w q c m : R,
+  (x0, x1, x2) <> (y0, y1, y2) ->
+  hyp_integrand (helmholtz_single_layer_regular x0 x1 x2 y0 y1 y2 nx0 nx1 nx2 ny0 ny1 ny2 0 w)
+                (hyp_mass_helmholtz_hypersingular_regular 0 w) c m
+  = hyp_integrand (modified_helmholtz_single_layer_regular x0 x1 x2 y0 y1 y2 nx0 nx1 nx2 ny0 ny1 ny2 w q)
+                  (hyp_mass_modified_helmholtz_hypersingular_regular w q) c m /\
+  hyp_integrand (helmholtz_single_layer_singular x0 x1 x2 y0 y1 y2 nx0 nx1 nx2 ny0 ny1 ny2 0 w)
+                (hyp_mass_helmholtz_hypersingular_singular 0 w) c m
+  = hyp_integrand (modified_helmholtz_single_layer_singular x0 x1 x2 y0 y1 y2 nx0 nx1 nx2 ny0 ny1 ny2 w q)
+                  (hyp_mass_modified_helmholtz_hypersingular_singular w q) c m.
+Proof. exact hyp_integrand_imaginary_k. Qed.
+Print Assumptions C05_hypersingular_imaginary_k.
